@@ -4,7 +4,9 @@ fresh-interpreter worker (harness/c16_worker.py) so that both sides canonicalise
 from __future__ import annotations
 
 import collections
+import contextlib
 import datetime as _dt
+import io
 import hashlib
 import json
 import math
@@ -12,6 +14,7 @@ import pathlib
 import re
 import sys
 import types
+import warnings
 
 ADDR = re.compile(r" at 0x[0-9a-fA-F]+")
 MAX_DEPTH = 14
@@ -107,22 +110,190 @@ def result_digests(parser) -> dict:
     return out
 
 
-def run_parse(parser_name: str, path: str, kwargs=None):
-    """construct + parse through the library's front door; returns (parser or None, digests)"""
-    import contextlib
-    import io
-    import warnings
+def kw_of(kw) -> dict:
+    """kwargs of a history event: a canonical JSON text ('' = none) or a dict"""
+    if not kw:
+        return {}
+    return dict(kw) if isinstance(kw, dict) else json.loads(kw)
 
-    from midgard import parsers
 
+def kw_text(kwargs) -> str:
+    return json.dumps(kwargs, sort_keys=True) if kwargs else ""
+
+
+@contextlib.contextmanager
+def quiet():
     with warnings.catch_warnings():
         warnings.simplefilter("ignore")
         with contextlib.redirect_stdout(io.StringIO()), contextlib.redirect_stderr(io.StringIO()):
-            try:
-                p = parsers.parse_file(parser_name, path, **(kwargs or {}))
-                return p, result_digests(p)
-            except (Exception, SystemExit) as e:  # the error class is the result
-                return None, {"error": type(e).__name__}
+            yield
+
+
+def run_parse(parser_name: str, path: str, kwargs=None):
+    """construct + parse through the library's front door; returns (parser or None, digests)"""
+    from midgard import parsers
+
+    with quiet():
+        try:
+            p = parsers.parse_file(parser_name, path, **kw_of(kwargs))
+            return p, result_digests(p)
+        except (Exception, SystemExit) as e:  # the error class is the result
+            return None, {"error": type(e).__name__}
+
+
+def construct(name: str, path: str, kwargs=None):
+    """first half of parsers.parse_file: plugins.call(package, name, file_path=…, encoding=…, **parser_args)"""
+    from midgard.dev import plugins
+
+    kw = kw_of(kwargs)
+    kw.setdefault("encoding", None)
+    return plugins.call(package_name="midgard.parsers", plugin_name=name, file_path=path, **kw)
+
+
+def do_parse(p):
+    """second half of parsers.parse_file"""
+    if p.data_available:
+        p.parse()
+    return p
+
+
+# -------------------------------------------------------------------------------------------------
+# histories: one interpreter for the exploration (harness/c16.py), for replays and for the confirmation of a
+# failing history in a fresh process (harness/c16_worker.py)
+#
+#   ["parse_file", name, path, kw]        construct + parse (parsers.parse_file); observed
+#   ["c<slot>", name, path, kw]           construct an object and keep it alive in <slot>
+#   ["p<slot>", …]                        parse the object in <slot>; observed
+#   ["m<slot>", …]                        the caller modifies in place everything it was handed (as_dict(), meta, header)
+#   ["o<slot>", …]                        look at the result of <slot> again; observed
+#   ["s<slot>"|"r<slot>"|"f<slot>", …]    the three public steps of Parser.parse() one by one: setup_parser(), read_data(),
+#                                         postprocess_data(); "f" is observed
+#   ["nest", nameA, pathA, kwA, k, nameB, pathB, kwB]
+#                                         parse A; when the k-th function of midgard/parsers is entered inside A's parse(),
+#                                         B is constructed and parsed completely (what a logger / callback / second thread
+#                                         of the caller may do), then A goes on; both observed (B first)
+#   ["write", dst, src]                  the file at dst gets the content of src (the same path holds other content later)
+# kw is '' or the canonical JSON text of the keyword arguments.
+
+
+def _parsers_dir() -> str:
+    import midgard.parsers as mp
+
+    return str(pathlib.Path(mp.__file__).resolve().parent)
+
+
+def count_calls(p) -> int:
+    """number of function entries in midgard/parsers during p.parse() (p is parsed by this)"""
+    pdir = _parsers_dir()
+    n = [0]
+
+    def tr(frame, event, arg):
+        if event == "call" and frame.f_code.co_filename.startswith(pdir):
+            n[0] += 1
+        return None
+
+    sys.settrace(tr)
+    try:
+        do_parse(p)
+    finally:
+        sys.settrace(None)
+    return n[0]
+
+
+def nested_parse(a, k: int, b_key, box=None):
+    """parse `a`; at the k-th function entry in midgard/parsers run a complete parse_file of b_key.
+    Returns the digests of B (None when A made fewer than k calls); they are also put into `box` as soon as they
+    exist, so that they survive an exception of A"""
+    pdir = _parsers_dir()
+    n = [0]
+    got = [None]
+
+    def tr(frame, event, arg):
+        if event == "call" and frame.f_code.co_filename.startswith(pdir):
+            n[0] += 1
+            if n[0] == k:
+                sys.settrace(None)
+                got[0] = run_parse(*b_key)[1]
+                if box is not None:
+                    box.append(got[0])
+        return None
+
+    sys.settrace(tr)
+    try:
+        do_parse(a)
+    finally:
+        sys.settrace(None)
+    return got[0]
+
+
+def exec_events(events, on_event=None):
+    """run a history in this process; returns [(event index, (name, path, kw), digests, what)] for the observed events"""
+    objs = {}
+    failed = {}
+    obs = []
+
+    def key_of(e, off=1):
+        return (e[off], e[off + 1], e[off + 2] if len(e) > off + 2 else "")
+
+    with quiet():
+        for i, e in enumerate(events):
+            op = e[0]
+            if op == "parse_file":
+                k = key_of(e)
+                obs.append((i, k, run_parse(*k)[1], "construct + parse"))
+            elif op == "write":
+                pathlib.Path(e[1]).parent.mkdir(parents=True, exist_ok=True)
+                pathlib.Path(e[1]).write_bytes(pathlib.Path(e[2]).read_bytes())
+            elif op == "nest":
+                ka, kb, kk = key_of(e, 1), key_of(e, 5), int(e[4])
+                box = []
+                try:
+                    a = construct(*ka)
+                    box.append(nested_parse(a, kk, kb, box))
+                    da = result_digests(a)
+                except (Exception, SystemExit) as err:
+                    da = {"error": type(err).__name__}
+                db = next((x for x in box if x is not None), None)
+                if db is not None:
+                    obs.append((i, kb, db, f"parsed completely at function entry {kk} inside the parse of {pathlib.Path(ka[1]).name}"))
+                obs.append((i, ka, da, f"parse during which (function entry {kk}) {pathlib.Path(kb[1]).name} was parsed by another object"))
+            else:
+                slot, k = op[1:], key_of(e)
+                try:
+                    if op[0] == "c":
+                        failed.pop(slot, None)
+                        objs[slot] = construct(*k)
+                    elif slot in failed:
+                        if op[0] in "pf":
+                            obs.append((i, k, failed[slot], "object could not be constructed / parsed"))
+                    elif slot not in objs:
+                        pass
+                    elif op[0] == "p":
+                        do_parse(objs[slot])
+                        obs.append((i, k, result_digests(objs[slot]), f"parse of object {slot}"))
+                    elif op[0] == "m":
+                        mutate_result(objs[slot])
+                    elif op[0] == "o":
+                        obs.append((i, k, result_digests(objs[slot]), f"result of object {slot} looked at again"))
+                    elif op[0] == "s":
+                        if objs[slot].data_available:
+                            objs[slot].setup_parser()
+                    elif op[0] == "r":
+                        if objs[slot].data_available:
+                            objs[slot].read_data()
+                    elif op[0] == "f":
+                        p = objs[slot]
+                        if p.data_available:
+                            p.postprocess_data()
+                        obs.append((i, k, result_digests(p), f"parse of object {slot} in its three public steps"))
+                except (Exception, SystemExit) as err:
+                    failed[slot] = {"error": type(err).__name__}
+                    objs.pop(slot, None)
+                    if op[0] in "pf":
+                        obs.append((i, k, failed[slot], f"parse of object {slot}"))
+            if on_event is not None:
+                on_event(i, e)
+    return obs
 
 
 # -------------------------------------------------------------------------------------------------
@@ -257,6 +428,13 @@ def _func_cells(mod: str, qual: str, fn, out: dict):
             for k, v in d.items():
                 if isinstance(v, CONTAINERS):
                     out[f"{mod}:{qual}.<func>.{k}"] = ("funcattr", _fp(v))
+        try:
+            for nm, cell in zip(getattr(getattr(f, "__code__", None), "co_freevars", ()), getattr(f, "__closure__", None) or ()):
+                v = cell.cell_contents
+                if isinstance(v, CONTAINERS):
+                    out[f"{mod}:{qual}.<closure>.{nm}"] = ("closure", _fp(v))
+        except ValueError:  # empty cell
+            pass
         for defs in (getattr(f, "__defaults__", None) or ()), tuple((getattr(f, "__kwdefaults__", None) or {}).values()):
             for i, v in enumerate(defs):
                 if isinstance(v, CONTAINERS):
@@ -293,4 +471,96 @@ def snapshot_cells(repo: str) -> dict:
                             _func_cells(name, f"{v.__name__}.{ck}", fn, out)
             elif (isinstance(v, types.FunctionType) or hasattr(v, "__wrapped__")) and getattr(v, "__module__", None) == name:
                 _func_cells(name, k, v, out)
+    return out
+
+
+# -------------------------------------------------------------------------------------------------
+# object identity: which mutable objects can be reached from where
+
+
+def _is_box(v) -> bool:
+    import numpy as np
+
+    return isinstance(v, CONTAINERS) or isinstance(v, np.ndarray)
+
+
+def reachable_boxes(root, depth: int = 6) -> dict:
+    """{id: short description} of the mutable containers / arrays reachable from `root` through containers, tuples and
+    instance dictionaries"""
+    out: dict = {}
+    seen = set()
+
+    def walk(o, d, where):
+        if id(o) in seen or d > depth:
+            return
+        seen.add(id(o))
+        if _is_box(o):
+            out[id(o)] = f"{where} ({type(o).__name__})"
+        if isinstance(o, dict):
+            for k, v in list(o.items())[:400]:
+                walk(v, d + 1, f"{where}[{k!r}]"[:120])
+        elif isinstance(o, (list, tuple, set, frozenset, collections.deque)):
+            for j, v in enumerate(list(o)[:400]):
+                walk(v, d + 1, f"{where}[{j}]"[:120])
+        elif hasattr(o, "__dict__") and not isinstance(o, (type, types.ModuleType)) and not callable(o):
+            # through the attributes of a plain object (its __dict__ itself is not counted: replacing an attribute of a
+            # shared constant object such as an Ellipsoid is not what a caller does with a result)
+            for k, v in list(vars(o).items())[:200]:
+                walk(v, d + 1, f"{where}.{k}"[:120])
+
+    walk(root, 0, "")
+    return out
+
+
+def shared_boxes(repo: str) -> dict:
+    """{id: cell id} of every mutable container reachable from a process-wide cell of the loaded midgard modules
+    (module attributes, class attributes, function attributes, defaults, closures, and what lru_caches can be asked for)"""
+    out: dict = {}
+
+    def add(cid, v):
+        for i, w in reachable_boxes(v, depth=3).items():
+            out.setdefault(i, cid + w.split(" (")[0])
+
+    def func(mod, qual, fn):
+        f, seen = fn, set()
+        while f is not None and id(f) not in seen:
+            seen.add(id(f))
+            for k, v in (getattr(f, "__dict__", None) or {}).items():
+                if _is_box(v):
+                    add(f"{mod}:{qual}.<func>.{k}", v)
+            for v in (getattr(f, "__defaults__", None) or ()) + tuple((getattr(f, "__kwdefaults__", None) or {}).values()):
+                if _is_box(v):
+                    add(f"{mod}:{qual}(default)", v)
+            try:
+                for nm, cell in zip(getattr(getattr(f, "__code__", None), "co_freevars", ()), getattr(f, "__closure__", None) or ()):
+                    if _is_box(cell.cell_contents):
+                        add(f"{mod}:{qual}.<closure>.{nm}", cell.cell_contents)
+            except ValueError:
+                pass
+            f = getattr(f, "__wrapped__", None)
+
+    for name, m in list(sys.modules.items()):
+        if not (name == "midgard" or name.startswith("midgard.")) or m is None:
+            continue
+        if not (getattr(m, "__file__", None) or "").startswith(repo):
+            continue
+        for k, v in list(vars(m).items()):
+            if k.startswith("__"):
+                continue
+            if _is_box(v):
+                add(f"{name}:{k}", v)
+            elif isinstance(v, type) and getattr(v, "__module__", None) == name:
+                for ck, cv in list(vars(v).items()):
+                    if ck.startswith("__") and ck != "__init__":
+                        continue
+                    if _is_box(cv):
+                        add(f"{name}:{v.__name__}.{ck}", cv)
+                    else:
+                        fn = cv.__func__ if isinstance(cv, (staticmethod, classmethod)) else cv
+                        if isinstance(fn, property):
+                            fn = fn.fget
+                        if callable(fn) and (isinstance(fn, types.FunctionType) or hasattr(fn, "__wrapped__")):
+                            func(name, f"{v.__name__}.{ck}", fn)
+            elif (isinstance(v, types.FunctionType) or hasattr(v, "__wrapped__")) and getattr(v, "__module__", None) == name:
+                func(name, k, v)
     return out
